@@ -2,6 +2,8 @@
 
 package c2
 
+import "sync/atomic"
+
 // C13 shim: exposes the unexported `state` word (every method of it is exported and is called
 // directly by the harness on a bare value) and the state bit constants in declaration order.
 // Added to the package through `go build -overlay`; never committed to /repo.
@@ -22,3 +24,55 @@ var VerifC13Names = [16]string{
 	"stateWakeClose", "stateChannel", "stateChannelValue", "stateChannelUpdated", "stateChannelProxy", "stateSeen",
 	"stateMoving", "stateReplacing", "stateShutdownWait",
 }
+
+// VerifC13Host is the word as the rest of c2 reaches it: through the connHost methods of a
+// *Session (client-side: kind 0, server-side: kind 2) or a *proxyClient (kind 1).
+type VerifC13Host struct {
+	h connHost
+	p *state
+	s *Session
+}
+
+// VerifC13NewHost builds a bare host of the given kind holding the word w.
+func VerifC13NewHost(kind int, w uint32) *VerifC13Host {
+	switch kind {
+	case 1:
+		c := new(proxyClient)
+		c.state = state(w)
+		return &VerifC13Host{h: c, p: &c.state}
+	case 2:
+		s := &Session{parent: new(Listener)}
+		s.state = state(w)
+		return &VerifC13Host{h: s, p: &s.state, s: s}
+	default:
+		s := new(Session)
+		s.state = state(w)
+		return &VerifC13Host{h: s, p: &s.state, s: s}
+	}
+}
+
+// Word loads the state word of the host.
+func (v *VerifC13Host) Word() uint32 { return atomic.LoadUint32((*uint32)(v.p)) }
+
+// Store overwrites the state word of the host.
+func (v *VerifC13Host) Store(w uint32) { atomic.StoreUint32((*uint32)(v.p), w) }
+
+func (v *VerifC13Host) StateSet(x uint32)   { v.h.stateSet(x) }
+func (v *VerifC13Host) StateUnset(x uint32) { v.h.stateUnset(x) }
+func (v *VerifC13Host) ChanRunning() bool   { return v.h.chanRunning() }
+func (v *VerifC13Host) ChanStart() bool     { return v.h.chanStart() }
+func (v *VerifC13Host) ChanStop() bool      { return v.h.chanStop() }
+
+// CloseCovered reports whether Session.close(false) on this host stops inside the part the model
+// covers (already closing; server-side first branch; client-side second branch, which ends in a
+// no-op Wake on a bare Session).  The server-side second branch runs shutdown(), which needs a
+// complete Session.
+func (v *VerifC13Host) CloseCovered() bool {
+	if v.s == nil {
+		return false
+	}
+	return v.s.state.Closing() || v.s.IsClient() || !v.s.state.ShutdownWait()
+}
+
+// Close calls Session.close(false).
+func (v *VerifC13Host) Close() { _ = v.s.close(false) }
